@@ -333,8 +333,10 @@ def run(ck, ctx):
         grid = I.input("grid", kind="obj")
         fname = I.input("filename")
         # HDF5 writer
-        r = I.run(I.func_node(fns["hdf5_nssgrid_writer"]), [grid, fname])
-        cds = [e for e in r.effects if e.kind == "mcall-mutate" and e.data.get("name") == "create_dataset"]
+        # with the overwrite switch undetermined: both the first write and the write over an existing file are explored
+        r = I.run(I.func_node(fns["hdf5_nssgrid_writer"]), [grid, fname], {"overwrite": I.input("overwrite")})
+        cds = list({e.where() + g.show(e.node, 2): e for e in r.effects if e.kind == "mcall-mutate" and
+                    e.data.get("name") == "create_dataset"}.values())
         ck.floor("R18.4", len(cds), 2, "create_dataset calls in the HDF5 writer")
         for e in cds:
             pos, kws = call_args(e.node)
@@ -349,6 +351,29 @@ def run(ck, ctx):
                     any(x.op == "Attr" and x.attr == "axes" for x in walk([d]))
                 ck.ob("R18.4", "HDF5 writer stores each axis array itself", bool(ok), e.node, "hdf5_nssgrid_writer",
                       g.show(d, 3) if d is not None else "no data=")
+        # arrays reach the file only through create_dataset(data=...): the data set then has the array's element type.
+        # An element-wise store into a data set that is already in the file keeps ITS element type (HDF5 converts
+        # silently: a float grid written over an integer one is truncated)
+        def is_attrs(n_):
+            for _ in range(4):
+                if n_.op == "Attr" and n_.attr == "attrs":
+                    return True
+                if n_.op in ("Subscript", "MCall", "Attr") and n_.args:
+                    n_ = n_.args[0]
+                else:
+                    break
+            return False
+        fresh = ("numpy.zeros", "numpy.empty", "numpy.ones", "numpy.full", "numpy.array", "numpy.asarray",
+                 "numpy.zeros_like", "numpy.empty_like", "numpy.copy", "builtins.dict", "builtins.list")
+        stores = [e for e in r.effects if e.kind == "write" and str(e.data.get("how", "")).startswith(("subscript", "aug"))
+                  and e.node is not None and not is_attrs(e.node) and
+                  not (e.node.op in ("Dict", "List") or is_ext_call(e.node, *fresh))]
+        for e in stores:
+            ck.ob("R18.4", f"HDF5 writer: no element-wise store into an object of the file [{e.where()}]", False, e.node,
+                  "hdf5_nssgrid_writer", f"{g.show(e.node, 3)}[...] = ...: an existing data set keeps its element type",
+                  construct="hdf5_nssgrid_writer: store into an existing data set")
+        ck.ob("R18.4", "HDF5 writer hands arrays to the file only by creating data sets from them (element type of the "
+              "array)", not stores, grid, "hdf5_nssgrid_writer", f"{len(stores)} element-wise store(s)")
         # HDF5 reader
         r2 = I.run(I.func_node(fns["hdf5_nssgrid_reader"]), [fname])
         v = r2.value
